@@ -29,6 +29,15 @@ PROPS = {
             "iter_mut / IntoIterator for &mut Headers (mutation behind the cache) are outside the operation set of the property",
         ],
     },
+    'C20': {
+        'streams': ['memory'],
+        'shrink': {},
+        'assumptions': [
+            "PARTIAL: the theorems bound a ledger of buffered bytes defined from the models' intermediate values; the allocator itself (Vec growth policy, BufReader/BufWriter capacities, stack vs heap placement) is outside the model and is measured by a counting global allocator",
+            "the measured bound is the ledger's heap part: head Vec + at most twice PROBE_MAX for the collected Vec (amortised doubling) + BufWriter; BufReader + one framing line on the request side",
+            "lengths are sampled (1 KiB .. 64 MiB quick, .. 1 GiB thorough); the unbounded claim is the theorem's, about the model",
+        ],
+    },
     'C11': {
         'streams': ['router'],
         'shrink': {},
